@@ -228,7 +228,52 @@ def corrupted_reach(case: int, site: int, kind: int) -> bool:
     return not (r and case == 0 and kind == K_DROP)
 
 
+# ------------------------------------------------ the weak claim, everywhere
+_LIM_Q = pipeline.Limits(True)
+_LIM_T = pipeline.Limits(False)
+
+
+def _weak_check(mi, outcome, val, built):
+    if outcome != 'raise' or not isinstance(val, yatiml.RecognitionError):
+        return True
+    msg = str(val)
+    cited = [int(m.group(1)) for m in _CITE.finditer(msg)]
+    nlines = max(n.start_mark.line for n in built.nodes) + 2
+    if not SYMBOLIC:
+        note(message=msg[-500:], cited_lines=cited, lines_in_document=nlines)
+        # at replay the marks are the real parser's: count the text's lines
+        from vlib.common import LAST
+        nlines = (LAST.get('yaml_text') or '').count('\n') + 1
+    return bool(cited) and all(1 <= c <= nlines + 1 for c in cited)
+
+
+def weak(site: int, mut: int, rsel: int, tag: str, vsel: int,
+         ksel: int) -> bool:
+    """
+    pre: 0 <= site < 28 and 0 <= mut < 7 and 0 <= rsel < 90
+    pre: 1 <= len(tag) <= 40 and tag != '!'
+    pre: not tag.startswith('tag:yaml.org,2002:')
+    pre: 0 <= vsel < 17 and 0 <= ksel < 14
+    post: __return__
+    """
+    from vlib.common import tier
+    r = pipeline.explore(slice_no(0), site, mut, rsel, tag, vsel, ksel,
+                         _LIM_Q if tier() == 'quick' else _LIM_T,
+                         _weak_check)
+    return True if r is None else r[1]
+
+
+_WEAK_QUICK = [s for s in pipeline.QUICK_SLICES
+               if MODELS[BASES[pipeline.slice_of(s)[0]][0]][0] in (
+                   'shapes', 'uni', 'loose', 'coll')]
+
 CONDITIONS = [
+    {'fn': 'weak', 'slices': pipeline.ALL_SLICES,
+     'quick_slices': _WEAK_QUICK, 'quick': 110, 'thorough': 600,
+     'bound': 'weak claim on the whole single-mutation document space of '
+              'vlib/pipeline.py (quick: 4 models): every RecognitionError '
+              'cites at least one position and every cited line lies inside '
+              'the document'},
     {'fn': 'corrupted', 'slices': list(range(9)), 'quick': 110,
      'thorough': 300,
      'bound': 'one slice per model (8 hierarchy-free, 1 hierarchy): every '
